@@ -87,7 +87,7 @@ fn gen_reqs(r: &mut Rng) -> Vec<String> {
 fn main() {
     let cli = cli();
     let mut out = Out::new();
-    std::panic::set_hook(Box::new(|_| {}));
+    if std::env::var("H_DEBUG").is_err() { std::panic::set_hook(Box::new(|_| {})); }
     let reqs: Vec<String> = if cli.mode == "replay" { read_requests(cli.file.as_deref().unwrap()) } else {
         let mut r = Rng::new(cli.seed);
         let mut v = Vec::new();
@@ -118,13 +118,14 @@ fn main() {
         if let Some((pt, pres)) = &prev {
             let is_rev = t[1] == "delta" && pt[1] == "delta" && pt[2..7] == t[2..7].iter().map(|s| s.to_string()).collect::<Vec<_>>()[..]
                 && t[11] == "1" && t[12] == "1" && pt[11] == "1"
-                && t[9].parse::<i128>().ok() == pt[9].parse::<i128>().ok().map(|v| -v) && t[10].parse::<i128>().ok() == pt[10].parse::<i128>().ok().map(|v| -v)
-                && t[7].parse::<i128>().ok() == Some(pt[7].parse::<i128>().unwrap() + pt[9].parse::<i128>().unwrap())
-                && t[8].parse::<i128>().ok() == Some(pt[8].parse::<i128>().unwrap() + pt[10].parse::<i128>().unwrap());
+                && t[9].parse::<i128>().ok() == pt[9].parse::<i128>().ok().and_then(|v| v.checked_neg()) && t[10].parse::<i128>().ok() == pt[10].parse::<i128>().ok().and_then(|v| v.checked_neg())
+                && t[7].parse::<i128>().ok().is_some() && t[7].parse::<i128>().ok() == pt[7].parse::<i128>().ok().zip(pt[9].parse::<i128>().ok()).and_then(|(a, b)| a.checked_add(b))
+                && t[8].parse::<i128>().ok().is_some() && t[8].parse::<i128>().ok() == pt[8].parse::<i128>().ok().zip(pt[10].parse::<i128>().ok()).and_then(|(a, b)| a.checked_add(b));
             if is_rev {
                 if let (Some((x, _)), Some((y, _))) = (pres, &res) {
                     out.stat("roundtrip.pairs");
-                    let total = x + y;
+                    // exact integers: the two impacts are i128 and their sum may not fit
+                    let total: i128 = match x.checked_add(*y) { Some(v) => v, None => { out.stat("roundtrip.sum_overflow"); if *x > 0 && *y > 0 { 1 << 100 } else { -1 } } };
                     if total > 0 {
                         if total == 1 && co == Some(false) { out.known("F-C03b", "same-side round trip nets +1 unit of value (floor rounding)", &req); }
                         else { out.oracle_fail(&format!("round trip yields positive total impact {total}"), &req); }
